@@ -36,6 +36,7 @@ pub(crate) fn in_order(p: &Node, q: &Node, t: &Id) -> bool {
 }
 
 //@ ob: C11.O1
+//@ also: C07
 //@ rss: 2.4
 //@ time: 372
 //@ tier: quick
